@@ -286,6 +286,8 @@ class ExprMixin:
             if isinstance(v, Obj) and self.hobj(v).kind == "set":
                 fr = self.frames[-1].func.short if self.frames and self.frames[-1].func else "?"
                 self.note(f"set-iter:{self.hobj(v).path}@{fr}")
+                # remember the parts of the set: an ordered container built from them stores the hash order
+                self.__dict__.setdefault("set_part_reprs", set()).update(repr(p) for p in self.hobj(v).parts)
             elif isinstance(v, K) and isinstance(v.v, (set, frozenset)):
                 self.note(f"set-iter:<constant set>")
             elif isinstance(v, Sym) and v.tags and v.tags <= {"set", "NoneType"}:
